@@ -159,6 +159,10 @@ def run_check(prop, spec, tier):
     print(f'VERIF_SEED={seed} property={prop} tier={tier} engine={engine_name} runs={runs} '
           f'workers={nworkers} repo={env.repo_path()}', flush=True)
 
+    if os.path.isdir(REPLAY_DIR):
+        for fn in os.listdir(REPLAY_DIR):
+            if fn.startswith(prop + '-'):
+                os.remove(os.path.join(REPLAY_DIR, fn))
     ctx = mp.get_context('fork')
     pool = ProcessPoolExecutor(max_workers=nworkers, mp_context=ctx,
                                initializer=_worker_init, initargs=(engine_name,))
